@@ -234,25 +234,25 @@ def graph (B : Backend) (op : String) (args : List Sx) (impl : Sx) : Option Outc
 
 /-- the interpreter with a log of the `(label, args)` pairs of every call -/
 def evalLogged (B : Backend) (f : F) (s : L) : Res (L × List (List (Nat × L))) := do
-  let (order, unvisited) ← Graph.layer B f
+  -- the outputs are literally the modelled function `Graph.eval` (about which C16's theorems speak)
+  let outs ← Graph.eval B f 0 s applySig
+  -- the log of `(label, args)` pairs per call is recomputed along the same layering (the interpreter
+  -- is pure); evaluation succeeded, so every step below succeeds too
+  let (order, _) ← Graph.layer B f
   let layering ← Graph.converseIter B order
-  if (Prim.max unvisited).getD 0 = 0 then do
-    let (_, outs) ← Graph.evalOrder f 0 s layering applySig
-    -- the log is recomputed along the same order (the interpreter is pure)
-    let mem0 := List.replicate f.h.w.length 0
-    let mem1 ← Prim.scatterAssign mem0 f.s.table s
-    let (_, log) ← layering.foldlM (fun (acc : L × List (List (Nat × L))) opIx => do
-        let (mem, log) := acc
-        let opFF : FinFun := ⟨opIx, f.h.x.length⟩
-        let labels ← (FinFun.composeSemi opFF f.h.x).unwrap "eval:unwrap-labels"
-        let inIdx ← (IC.mapIndexes f.h.s opFF).unwrap "eval:unwrap-in-indexes"
-        let inVals ← (IC.mapSemifinite inIdx mem).unwrap "eval:unwrap-in-values"
-        let outputs := applySig labels inVals
-        let outIdx ← (IC.mapIndexes f.h.t opFF).unwrap "eval:unwrap-out-indexes"
-        let mem' ← Prim.scatterAssign mem outIdx.values.table outputs.values
-        pure (mem', log ++ [labels.zip inVals.segsL])) (mem1, [])
-    pure (outs, log)
-  else .none
+  let mem0 := List.replicate f.h.w.length 0
+  let mem1 ← Prim.scatterAssign mem0 f.s.table s
+  let (_, log) ← layering.foldlM (fun (acc : L × List (List (Nat × L))) opIx => do
+      let (mem, log) := acc
+      let opFF : FinFun := ⟨opIx, f.h.x.length⟩
+      let labels ← (FinFun.composeSemi opFF f.h.x).unwrap "eval:unwrap-labels"
+      let inIdx ← (IC.mapIndexes f.h.s opFF).unwrap "eval:unwrap-in-indexes"
+      let inVals ← (IC.mapSemifinite inIdx mem).unwrap "eval:unwrap-in-values"
+      let outputs := applySig labels inVals
+      let outIdx ← (IC.mapIndexes f.h.t opFF).unwrap "eval:unwrap-out-indexes"
+      let mem' ← Prim.scatterAssign mem outIdx.values.table outputs.values
+      pure (mem', log ++ [labels.zip inVals.segsL])) (mem1, [])
+  pure (outs, log)
 
 def evalG (B : Backend) (op : String) (args : List Sx) (impl : Sx) : Option Outcome :=
   match op, args with
